@@ -24,7 +24,8 @@ func freeKeyMapping(keys []string) bool {
 			return true
 		}
 	}
-	return strings.Contains(g, ".strategy.matrix.include.[]") || strings.Contains(g, ".strategy.matrix.exclude.[]")
+	// include / exclude elements, and every mapping nested inside a matrix value (user data of arbitrary shape)
+	return strings.Contains(g, ".strategy.matrix.include.[]") || strings.Contains(g, ".strategy.matrix.exclude.[]") || strings.Contains(g, ".strategy.matrix.<matrix_id>.")
 }
 
 func caseInsensitiveMapping(keys []string) bool {
